@@ -66,6 +66,8 @@ def env():
     E.kt = importlib.import_module('src.ir.kotlin_types')
     E.jt = importlib.import_module('src.ir.java_types')
     E.cfg = importlib.import_module('src.generators.config').cfg
+    E.gen = importlib.import_module('src.generators.generator')       # imported here, once, not in every forked child
+    E.tov = importlib.import_module('src.transformations.type_overwriting')
     E.real = dict(itc=E.tu.instantiate_type_constructor, ipf=E.tu.instantiate_parameterized_function,
                   ctva=E.tu._compute_type_variable_assignments)
     _E = E
@@ -1150,7 +1152,7 @@ GEN_SEEDS = {'quick': {'kotlin': [2, 4, 5, 8, 9, 11, 14, 15, 19, 23], 'java': [0
                        'scala': [0, 2, 3, 4, 7, 11], 'groovy': [0, 3, 4, 7, 10, 11]},
              'thorough': {'kotlin': list(range(80)), 'java': list(range(80)), 'scala': list(range(80)),
                           'groovy': list(range(40))}}
-WORK_BUDGET = 150000     # objects deep-copied by src.ir.types per program before the generation is cut off
+WORK_BUDGET = 150000     # objects deep-copied (src.ir.types, src.ir.ast, generator) per program before the generation is cut off
 
 
 class BudgetExceeded(BaseException):
@@ -1194,7 +1196,10 @@ def run_generator(E, chk, inp):
         if work[0] > WORK_BUDGET:
             raise BudgetExceeded()
         return r
-    E.tp.deepcopy = dc
+    patched = [E.tp, E.ast, gen]          # every module of the generator path that imports deepcopy by name
+    for m in patched:
+        m.deepcopy = dc
+    chk.work = work
     try:
         def go():
             p = gen.Generator(language=inp['language']).generate()
@@ -1208,7 +1213,8 @@ def run_generator(E, chk, inp):
             chk.cut_off += 1
             return False
     finally:
-        E.tp.deepcopy = real_dc
+        for m in patched:
+            m.deepcopy = real_dc
         sys.setrecursionlimit(old)
         E.cfg.dis.use_site_variance, E.cfg.dis.use_site_contravariance = False, False
 
@@ -1233,7 +1239,7 @@ RULE = (
     'VERIF_SEED-random points, thorough = denser strides + 150000 random points. '
     'GENERATOR: every call made while generating and type-overwriting the programs of the fixed (language, seed, cfg.dis) '
     'list (+ VERIF_SEED-random seeds), each program in a freshly forked process; a deterministic work guard (%d objects '
-    'deep-copied by src.ir.types) cuts off the rare very long generations (counted). '
+    'deep-copied by the generator path) cuts off the rare very long generations (counted). '
     'ORACLE: specs/inst_ref.py Ref.sub, a declarative relation read from the declarations and extended to type variables '
     '(X <: T iff X == T or bound(X) <: T); never the repository\'s is_subtype / == / substitution. A projection argument '
     '(out and in alike) is judged by its projected type. Where a bound mentions a parameter whose argument is a projection '
